@@ -347,7 +347,7 @@ func (c *Chunker) Chunk(doc *model.Document) (*ChunkResult, error) {
 	// Process each section into chunks
 	chunkIndex := 0
 	for _, section := range sections {
-		sectionChunks := c.chunkSection(section, &chunkIndex, doc.Metadata.Title)
+		sectionChunks := c.chunkSectionTree(section, &chunkIndex, doc.Metadata.Title)
 		result.Chunks = append(result.Chunks, sectionChunks...)
 	}
 
@@ -529,8 +529,8 @@ func (c *Chunker) buildSections(doc *model.Document) []*Section {
 
 		// Process headings on this page
 		for _, heading := range page.Layout.Headings {
-			// If we have content before this heading, add it
-			if len(preambleContent) > 0 && len(sectionStack) == 0 {
+			// If we have content before the first section heading, add it
+			if heading.Level <= c.config.MinHeadingLevel && len(preambleContent) > 0 && len(sectionStack) == 0 {
 				// Content before first heading
 				preambleSection := &Section{
 					Title:     "",
@@ -585,14 +585,22 @@ func (c *Chunker) buildSections(doc *model.Document) []*Section {
 				sectionStack = append(sectionStack, newSection)
 			} else {
 				// Minor heading - include in current section's content
+				elem := ContentElement{
+					Type: model.ElementTypeHeading,
+					Text: heading.Text,
+					Page: pageIndex,
+					BBox: heading.BBox,
+				}
 				if len(sectionStack) > 0 {
 					currentSection := sectionStack[len(sectionStack)-1]
-					currentSection.Content = append(currentSection.Content, ContentElement{
-						Type: model.ElementTypeHeading,
-						Text: heading.Text,
-						Page: pageIndex,
-						BBox: heading.BBox,
-					})
+					currentSection.Content = append(currentSection.Content, elem)
+				} else {
+					// No section yet: it belongs to the content before the first section
+					preambleContent = append(preambleContent, elem)
+					if preambleStartPage == 0 {
+						preambleStartPage = pageIndex
+					}
+					preambleEndPage = pageIndex
 				}
 			}
 		}
@@ -658,6 +666,15 @@ func (c *Chunker) buildSections(doc *model.Document) []*Section {
 	return sections
 }
 
+// chunkSectionTree processes a section and then its subsections, in document order
+func (c *Chunker) chunkSectionTree(section *Section, chunkIndex *int, docTitle string) []*Chunk {
+	chunks := c.chunkSection(section, chunkIndex, docTitle)
+	for _, child := range section.Children {
+		chunks = append(chunks, c.chunkSectionTree(child, chunkIndex, docTitle)...)
+	}
+	return chunks
+}
+
 // chunkSection processes a section into chunks
 func (c *Chunker) chunkSection(section *Section, chunkIndex *int, docTitle string) []*Chunk {
 	chunks := make([]*Chunk, 0)
@@ -712,7 +729,12 @@ func (c *Chunker) chunkSection(section *Section, chunkIndex *int, docTitle strin
 
 	text := textBuilder.String()
 	if strings.TrimSpace(text) == "" {
-		return chunks
+		if section.Heading == nil || strings.TrimSpace(section.Title) == "" {
+			return chunks
+		}
+		// A heading without body text is still content: emit it on its own
+		text = section.Title
+		elementTypes = []string{model.ElementTypeHeading.String()}
 	}
 
 	// Check if section fits in one chunk
